@@ -67,6 +67,13 @@ def eval_case(case):
                 rv3 = L.call("vk_%s_decode" % n, dst, exp, checked) & 1
                 if rv3 != 1 or L.unaff(dst.raw, g) != P:
                     msgs.append("decode(checked=%d) into an object that held %s before: rv=%d / other point" % (checked, what, rv3))
+                # ... and the decode -> encode chain on that re-used object gives the canonical bytes again (fields the comparison above does not
+                # look at - the coordinates of an identity - must not reach the encoder: seeded C09-r7a)
+                for fn, args in (("vk_%s_encode" % n, (dst.raw,)), (CAPI[g] + "_marshal", (dst.raw, 1 if comp else 0))):
+                    buf = L.buf(len(exp), b"\xCD" * len(exp))
+                    L.call(fn, buf, *args)
+                    if buf.raw != exp:
+                        msgs.append("%s after decode(checked=%d) into an object that held %s before: bytes differ from the canonical encoding" % (fn, checked, what))
         other = ref.encode_point(P, g, not comp)
         rv, out = L.outr("vk_%s_decode" % ENC[(g, not comp)], asize, other, 1)
         if rv != 1 or L.unaff(out, g) != P:
